@@ -5,8 +5,10 @@
 
 package txtar
 
-//@ property C03: isMarker, findFileMarker, fixNL
-//@ property C14: NeedsQuote
+//@ property C03: isMarker, findFileMarker, fixNL, Parse
+//@ bounded C03: TestVerifBoundedParseRoundTrip
+//@ property C14: NeedsQuote, Quote, lemma:quotedSafe
+//@ bounded C14: TestVerifBoundedUnquoteQuote
 
 // Vocabulary (from the txtar format description and properties C03/C14).
 // Positions are absolute positions in the byte array underlying d:
@@ -59,3 +61,28 @@ package txtar
 //@ func NeedsQuote
 //@   modifies new bytes
 //@   ensures result == !noMarkerBefore(data, hi(data))
+
+// C14: Quote refuses what it cannot represent; its result is newline-terminated
+// and every line of it starts with '>', hence contains no marker line.
+//@ func Quote
+//@   names (nd, err)
+//@   modifies new bytes
+//@   ensures (err != nil) == (len(data) > 0 && (data[len(data)-1] != '\n' || !utf8Valid(data)))
+//@   ensures err == nil && len(data) == 0 ==> nd == nil
+//@   ensures err == nil && len(data) > 0 ==> len(nd) > 0 && at(nd, hi(nd)-1) == '\n'
+//@   ensures err == nil ==> forall P {at(nd,P)} :: lo(nd) <= P && P < hi(nd) && lineStartA(nd, P) ==> at(nd, P) == '>'
+//@   loop 1: invariant -1 <= rangeindex && rangeindex < len(data) && oldObjectsUnchanged(bytes)
+//@   loop 1: invariant nd == nil || fresh(nd)
+//@   loop 1: invariant prev == (rangeindex < 0 ? '\n' : data[rangeindex])
+//@   loop 1: invariant rangeindex < 0 ==> len(nd) == 0
+//@   loop 1: invariant rangeindex >= 0 ==> len(nd) > 0 && at(nd, hi(nd)-1) == prev
+//@   loop 1: invariant forall P {at(nd,P)} :: lo(nd) <= P && P < hi(nd) && lineStartA(nd, P) ==> at(nd, P) == '>'
+//@   loop 1: decreases len(data) - rangeindex
+
+// If every line of d starts with '>' then d contains no marker line: together
+// with Quote's and NeedsQuote's contracts, NeedsQuote(Quote(data)) == false.
+//@ lemma quotedSafe: forall d []byte :: (forall P {at(d,P)} :: lo(d) <= P && P < hi(d) && lineStartA(d, P) ==> at(d, P) == '>') ==> noMarkerBefore(d, hi(d))
+
+//@ func Parse
+//@   names (a)
+//@   ensures a != nil
